@@ -1174,6 +1174,13 @@ func (srv *server) newClient(c net.Conn) (*client, error) {
 func (srv *server) addConnecting(c *client) {
 	srv.mu.Lock()
 	defer srv.mu.Unlock()
+	select {
+	case <-srv.exitChan:
+		// Stop has begun and may have listed the connections already (this one was accepted just before the
+		// listener was closed, e.g. while an OnAccept hook was running): close it here, it will not be served
+		c.Close()
+	default:
+	}
 	if srv.connecting == nil {
 		srv.connecting = make(map[*client]struct{})
 	}
